@@ -183,12 +183,22 @@ def cleanDoc (cv : Conv V) (fetch : Str → Option (Doc V)) (doc : Doc V) : Doc 
 /-- canonical absolute path text `/a/b` → names -/
 def parsePath (s : Str) : List Str := (splitOn '/' s).drop 1
 
-/-- canonical include text `url#/a/b` (or `url` alone: first Section of the document) -/
-def parseInclude (s : Str) : Str × Option (List Str) :=
-  match splitOn '#' s with
-  | [u] => (u, none)
-  | u :: p :: _ => (u, some (parsePath p))
+/-- `url, path = new_value.split('#', 1)` of the include setter: the text in front of the FIRST
+    `sep` and, if there is one, everything behind it (further `sep`s included) -/
+def splitFirst (sep : Char) : Str → Str × Option Str
   | [] => ([], none)
+  | c :: cs =>
+    if c == sep then ([], some cs)
+    else ((c :: (splitFirst sep cs).1), (splitFirst sep cs).2)
+
+/-- the text `/a/b` of a position given by names (what `parsePath` reads) -/
+def absPath (ns : List Str) : Str := ns.flatMap (fun n => '/' :: n)
+
+/-- canonical include text `url#/a/b` (or `url` alone: first Section of the document). The path
+    is what follows the first `#`: a Section name may hold a `#` itself (`shank #1`), a URL
+    cannot (it would start the fragment). -/
+def parseInclude (s : Str) : Str × Option (List Str) :=
+  ((splitFirst '#' s).1, (splitFirst '#' s).2.map parsePath)
 
 /-- the names of the Sections of a sub-tree, level by level (order of `itersections`) -/
 def pathsAtDepth : Nat → List Str → List (Sec V) → List (List Str)
